@@ -34,6 +34,56 @@ Theorem C01_gate : forall K addr evs e,
 Proof. exact gate_node. Qed.
 Print Assumptions C01_gate.
 
+(* C01_gate with the accepting decision placed in the history: the event list splits at a Lookup for this
+   bid's digest with status ACCEPTED that comes AFTER this handler's Arrive and that, at the moment it was
+   processed, was received on a serving stream and found the entry registered by THIS handler (so it is the
+   decision whose callback filled this handler's channel: C12_delivered).  "Before the deadline": the handler
+   itself then received that status (HTake), which a handler that has returned -- e.g. because its deadline
+   step came first -- never does (C01_returned_is_final, C01_late_events_no_effect).
+   "A written commitment embeds this bid" holds in the model by construction ([on_status] builds the
+   commitment around the bid that was read; ConstructPreConfirmation's answer is modelled as digest and
+   signature only): that the frame really written embeds the bid byte for byte is compared on every case
+   by the checker (check/Check_C01.v, [bid_eqb] on the observed frame). *)
+Theorem C01_gate_ordered : forall K addr evs e,
+  In e (heff (run K rules_validators (node_wiring addr) evs)) -> is_commit_effect e = true ->
+  exists role o b a sid pre post,
+    evs = pre ++ Lookup sid (b_dig b) status_accepted :: post /\
+    In (Arrive (eff_handler e) role o) pre /\
+    role = role_bidder /\ o_read o = Some b /\ o_verify o = VOk a /\ o_allow o = true /\
+    vbid rules_validators (to_engine b) = true /\
+    pget (b_dig b) (pending (svc (run K rules_validators (node_wiring addr) pre))) = Some (eff_handler e) /\
+    sget sid (svc (run K rules_validators (node_wiring addr) pre)) = SIdle /\
+    In (HTake (eff_handler e) status_accepted) (heff (run K rules_validators (node_wiring addr) evs)) /\
+    (forall h c, e = HWrite h c -> c_bid c = b).
+Proof. exact gate_ordered_node. Qed.
+Print Assumptions C01_gate_ordered.
+
+(* The deadline of handleBid is the literal 5 s of the source (gen/Generated.v) ... *)
+Theorem C01_deadline_is_5s : Generated.c01_deadline_ns = [5000000000%Z] /\ deadline_ms = 5000.
+Proof. exact (conj deadline_literal deadline_ms_value). Qed.
+Print Assumptions C01_deadline_is_5s.
+
+(* ... and whatever reaches a waiting handler 5000 ms or more after it started waiting -- an ACCEPTED
+   decision, store and write results, anything -- comes after its deadline step: the handler returns the
+   context error and its complete trace is that return (no signature, no transaction, no commitment).
+   [timed_history h t pre after] is the history the driver's true-deadline cases are judged by. *)
+Theorem C01_late_events_no_effect : forall K addr pre after h b t,
+  5000 <= t ->
+  panicked (svc (run K rules_validators (node_wiring addr) pre)) = false ->
+  nget h (hs (run K rules_validators (node_wiring addr) pre)) = Some (HInSvc b false) ->
+  (exists b0, nget h (calls (svc (run K rules_validators (node_wiring addr) pre))) = Some (PHanded b0)) ->
+  let S := run K rules_validators (node_wiring addr) (timed_history h t pre after) in
+  nget h (hs S) = Some (HDone RCtx) /\ hist h S = [HReturn h RCtx].
+Proof. exact (fun K addr => late_events_no_effect K rules_validators (node_wiring addr)). Qed.
+Print Assumptions C01_late_events_no_effect.
+
+(* No history panics the service (C12_at_most_once), so the "nothing happens after a panic" clause of
+   [step] is dead; and no handler reaches the modelled crash of StoreCommitment. *)
+Theorem C01_no_panic : forall K addr evs h,
+  nget h (hs (run K rules_validators (node_wiring addr) evs)) <> Some (HDone RPanic).
+Proof. exact no_rpanic_node. Qed.
+Print Assumptions C01_no_panic.
+
 (* The same with the signer model in place of the VerifyBid oracle (C02_sound_bid): in every history
    whose Arrive events carry [Signer.verify_bid K cr] of the bid read from the wire and the allowance
    answer for the recovered signer ([signed_history]), a commit effect implies that the presented
